@@ -17,7 +17,7 @@ pub fn edge_driver(out: &str, seed: u64, n: u64) {
     let mut r = Recorder::new(&format!("{}/edge.trace", out), base_setup());
     let (mut nbk, mut nkill, mut nclose, mut nutil) = (0u64, 0u64, 0u64, 0u64);
     for k in 0..n {
-        match k % 8 {
+        match k % 9 {
             0 => {
                 // ---- exact wipe: the sole borrower drew every deposited token (or all but delta), no fees, no time (or a
                 // second), empty or tiny insurance; collateral made worthless; bankruptcy. Uncovered loss =, <, > deposits.
@@ -25,7 +25,7 @@ pub fn edge_driver(out: &str, seed: u64, n: u64) {
                 let x: u64 = *pick(&mut rng, &[1_000_000u64, 123_456_789, 7, 50_000_000_000]);
                 // (loss = deposits, deposits - 1, deposits - 2; insurance empty, a unit, half, all, more than the debt)
                 let combos: [(u64, u64); 8] = [(0, 0), (1, 0), (0, 1), (0, x.saturating_add(5)), (2, 0), (0, x / 2), (0, x.saturating_mul(3)), (1, x)];
-                let (delta, ins) = combos[((k / 8) % 8) as usize];
+                let (delta, ins) = combos[((k / 9) % 8) as usize];
                 let two_lenders = rng.gen_bool(0.4);
                 let mut extra = vec![];
                 plain_bank("D1", dec, "spl", "1", json!({"ir":{"orig_fee":"0"}}), &mut extra);
@@ -415,6 +415,43 @@ pub fn edge_driver(out: &str, seed: u64, n: u64) {
                 r.act(liq(1));
                 r.act(json!({"op":"pulse_health","acct":"A1"}));
                 r.act(json!({"op":"bankruptcy","acct":"A1","bank":"D1"}));
+            }
+            8 => {
+                // ---- winding a bank down whose deposit share value is no longer 1: token-less repayments allowed and declared
+                // complete, then the lenders' positions purged one by one (the others' claims and the totals must follow)
+                let mut extra = vec![];
+                plain_bank("D1", *pick(&mut rng, &[6u8, 9]), "spl", "1", json!({"ir":{"orig_fee":"0","ins_ir": *pick(&mut rng, &["0", "0.1"])}}), &mut extra);
+                plain_bank("C1", 6, "spl", "1", json!({"aw_init":"1","aw_maint":"1"}), &mut extra);
+                extra.push(json!({"op":"fund","user":"U9","mint":"M.D1","amount":"4000000000000000000"}));
+                extra.push(json!({"op":"fund","user":"U2","mint":"M.D1","amount":"4000000000000000000"}));
+                extra.push(json!({"op":"fund","user":"U1","mint":"M.D1","amount":"4000000000000000000"}));
+                extra.push(json!({"op":"fund","user":"U1","mint":"M.C1","amount":"4000000000000000000"}));
+                r.begin(&extra);
+                let dep: u64 = *pick(&mut rng, &[1_000_000u64, 777_777_777, 90_000_000_000]);
+                r.act(json!({"op":"deposit","acct":"LP","bank":"D1","amount":dep}));
+                r.act(json!({"op":"deposit","acct":"A2","bank":"D1","amount": dep / *pick(&mut rng, &[1u64, 3, 7])}));
+                r.act(json!({"op":"deposit","acct":"A1","bank":"C1","amount":"1000000000000000000"}));
+                r.act(json!({"op":"borrow","acct":"A1","bank":"D1","amount": dep / 10 * *pick(&mut rng, &[5u64, 9])}));
+                r.act(json!({"op":"tick","dt": *pick(&mut rng, &[2_592_000i64, 31_536_000, 94_608_000])}));
+                r.act(json!({"op":"accrue","bank":"D1"}));
+                if rng.gen_bool(0.5) {
+                    r.act(json!({"op":"repay","acct":"A1","bank":"D1","amount":0,"all":true}));
+                }
+                r.act(json!({"op":"purge","acct":"LP","bank":"D1"}));                              // not flagged
+                r.act(json!({"op":"configure_bank","bank":"D1","cfg":{"tokenless_allowed":true}}));
+                r.act(json!({"op":"purge","acct":"LP","bank":"D1"}));                              // allowed, not complete
+                r.act(json!({"op":"tokenless_complete","bank":"D1"}));
+                r.act(json!({"op":"purge","acct":"A1","bank":"D1"}));                              // a debt position (or none)
+                r.act(json!({"op":"purge","acct":"LP","bank":"D1","signer":"admin"}));
+                let first = *pick(&mut rng, &["LP", "A2"]);
+                let second = if first == "LP" { "A2" } else { "LP" };
+                r.act(json!({"op":"purge","acct":first,"bank":"D1"}));
+                r.act(json!({"op":"accrue","bank":"D1"}));
+                r.act(json!({"op":"withdraw","acct":second,"bank":"D1","amount":1}));
+                r.act(json!({"op":"purge","acct":first,"bank":"D1"}));                             // already gone
+                r.act(json!({"op":"purge","acct":second,"bank":"D1"}));
+                r.act(json!({"op":"pulse_health","acct":second}));
+                r.act(json!({"op":"close_bank","bank":"D1"}));
             }
             _ => {
                 // ---- a solvent account in a collateral bank whose collateral-value cap is lowered far below its deposits
